@@ -108,16 +108,17 @@ PROPS["C04"] = {
 PROPS["C05"] = {
     "level": "fault_enumeration",
     "technique": "generated build-then-delete histories (rapid) with an exact accounting oracle (fsck: marked = reachable, allocators = bitmaps, counts back to initial, disk refillable); crash-point enumeration of multi-transaction frees with delete-everything-and-count on the recovered server",
-    "level_text": "Sequential: histories build trees with files of every size class (dense files of 500-1400 blocks incl. sizes around one journal transaction, sparse files, holes filled by reads, symlinks, nested directories, renames over targets, failing requests), with clean restarts and, in about a third of the cases, stops that interrupt the background shrinker; then everything is deleted bottom-up, and after background freeing the on-disk bitmaps must mark exactly the reachable blocks/inodes (only the root), the allocators must agree with the bitmaps, free counts must equal those recorded after mkfs (modulo growth of the root directory), and filling the disk until NOSPC must leave no free block. Half-freed inodes are tolerated only when a free was interrupted, and then only until their numbers are reused. Crash: every explored crash image of programs that free large files is checked with fsck (marked = owned, half-freed allowed) and, for images with a half-freed inode and 1/8 of the others, emptied and counted the same way.",
+    "level_text": "Sequential: histories build trees with files of every size class (dense files of 500-1400 blocks incl. sizes around one journal transaction, sparse files, holes filled by reads, symlinks, nested directories, renames over targets, failing requests), with clean restarts and, in about a third of the cases, stops that interrupt the background shrinker; then everything is deleted bottom-up, and after background freeing the on-disk bitmaps must mark exactly the reachable blocks/inodes (only the root), the allocators must agree with the bitmaps, free counts must equal those recorded after mkfs (modulo growth of the root directory), and filling the disk until NOSPC must leave no free block. Half-freed inodes are tolerated only when a free was interrupted, and then only until their numbers are reused. Crash: every explored crash image of programs that free large files is checked with fsck (marked = owned, half-freed allowed) and, for images with a half-freed inode and 1/8 of the others, emptied and counted the same way. Concurrent: 2-4 clients, each in a directory of its own, write, cut, replace by RENAME and remove files of every size class at the same time on data regions of 2000-7500 blocks (so that blocks freed by one client are handed to another while the background shrinker is still at work); when all have returned everything is removed and, after background freeing, every block and inode must be free again on disk and in the allocators, also after a restart.",
     "level_note": "Sampled histories; enumerated crash points (quick <=120 per program, thorough all). 'Touched' release of half-freed inodes is exercised through inode-number reuse after a restart.",
     "rule": ("unit = one build-then-delete history, or one recovered crash image. Non-trivial: the history freed at least one indirect block or contained a shrinker-interrupting stop; the crash image contains a half-freed inode. "
              "distinct = FNV hash of the history resp. (program, crash point, variant)."),
     "assumptions": CRASH_ASSUMPTIONS,
-    "required_classes": ["history_that_freed_indirect_blocks", "crash_images_with_half_freed_inode", "recovered_images_with_followup_check", "removed_file_with_about_journal_size_blocks", "full_disk_history_emptied_and_counted"],
+    "required_classes": ["concurrent_histories_with_frees_of_more_than_500_blocks", "history_that_freed_indirect_blocks", "crash_images_with_half_freed_inode", "recovered_images_with_followup_check", "removed_file_with_about_journal_size_blocks", "full_disk_history_emptied_and_counted"],
     "units": [
         {"test": "^TestRegressC05$", "norapid": True, "quick": {"shards": 1}, "thorough": {"shards": 1}},
         {"test": "^TestC05Seq$", "quick": {"checks": 40, "shards": 8}, "thorough": {"checks": 600, "shards": 12, "steps": 50}},
         {"test": "^TestC05Full$", "quick": {"checks": 40, "shards": 4, "steps": 40}, "thorough": {"checks": 600, "shards": 8, "steps": 60}},
+        {"test": "^TestC05Conc$", "quick": {"checks": 150, "shards": 4}, "thorough": {"checks": 5000, "shards": 8}},
         {"test": "^TestC05Crash$", "quick": {"checks": 4, "shards": 2, "procs": 4, "timeout": 600},
          "thorough": {"checks": 20, "shards": 4, "procs": 4, "timeout": 7200}},
     ],
